@@ -34,6 +34,11 @@ def step (s : St) : List String → St × List String
       | some (.gen g) => ({ subs := s.subs.set! k (.gen (g.subst p v)) }, ["ok"])
       | _ => (s, ["bad-op"])
     | _, _, _ => (s, ["bad-op"])
+  -- the substitution becomes the operand of an instantiation node: a reader of it, nothing more
+  | ["inst", k] =>
+    match idx? k with
+    | some k => (s, [if k < s.subs.size then "ok" else "bad-op"])
+    | none => (s, ["bad-op"])
   | ["app", k, q] =>
     match idx? k, node? q with
     | some k, some q =>
